@@ -138,6 +138,10 @@ def main(tier, seed):
             else:
                 ops.append("c")
         qcases.append(" ".join(ops + ["d", "d"]))
+    # bursts at and beyond the 1024 limit other sources use per dispatch: everything that is ready is delivered, then None
+    for n in (1023, 1024, 1025, 3000):
+        burst = " ".join("u%d" % k for k in range(1, n + 1))
+        qcases += [burst + " d d d", burst + " c d d d", burst + " d u%d c d d" % (n + 1)]
     qimpl = p_c03.run_batch(vlib.HARNESS, "streamq", qcases)
     qmodel, qmlog = vlib.run_model(["streamq"], qcases)
     qdiff = [(c, a, b) for c, a, b in zip(qcases, qimpl, qmodel) if a != b]
